@@ -151,6 +151,40 @@ theorem C14_code_hull_double_ended (s : St) (hl : s.LinksOK) (ha : s.AnchorsOK) 
 example : CI.run exFive.nxt exFive.prv (CI.new 13) [true, false, false, true, true, true] =
     [some 13, some 9, some 1, some 11, some 3, none] := by decide
 
+/-- the two model iterators compared with the implementation on every `hull` query
+    (`convex_hull()` and `convex_hull().rev()`), expressed by the hull model `St.hullIter`:
+    the forward drain *is* `hullIter`; on every valid state the backward drain is its reverse -/
+theorem C14_code_hull_front (s : St) : s.hullIterFront = s.hullIter := by
+  unfold St.hullIterFront St.hullCI St.hullIter
+  cases s.fAdj.getD 0 none with
+  | none => exact CI_drain_done _ _ rfl _
+  | some e0 => simp only [CI.new, CI_drain_orbit]
+
+theorem C14_code_hull_back (s : St) (hl : s.LinksOK) (ha : s.AnchorsOK) (ho : s.OuterCycleOK)
+    (hpos : 0 < s.nE) : s.hullIterBack = s.hullIter.reverse := by
+  obtain ⟨e0, hf, he0, hfc0⟩ := outer_anchor s ha hpos hl.2.1
+  have hfe : s.fe 0 = e0 := by simp [St.fe, hf]
+  have hiter : s.hullIter = orbit s.nxt e0 s.nE e0 := by simp [St.hullIter, hf]
+  let P : Nat → Prop := fun x => x < s.nE ∧ s.fc x = 0
+  have hstep : ∀ x, P x → P (s.nxt x) := by
+    intro x ⟨hx, hfx⟩
+    have := hl.2.2.2.2 x hx
+    exact ⟨this.2.1, by rw [this.2.2.2.2.2.2.2.1]; exact hfx⟩
+  have hinv : ∀ x, P x → s.prv (s.nxt x) = x := by
+    intro x ⟨hx, _⟩
+    exact (hl.2.2.2.2 x hx).2.2.2.2.2.1
+  have hclosed : orbitClosed s.nxt e0 (orbit s.nxt e0 s.nE e0) := by
+    have := (ho hpos).1
+    rw [hfe] at this; exact this
+  have hc := orbit_isCycle s.nxt s.prv P hstep hinv e0 ⟨he0, hfc0⟩ s.nE hclosed
+  have hb := CI_drainBack_reverse hc s.nE (orbit_length_le _ _ _ _)
+  unfold St.hullIterBack St.hullCI
+  simp only [hf]
+  rw [hiter, orbit_eq_map_iter s.nxt e0 s.nE]
+  exact hb
+
+example : exFive.hullIterBack = [9, 1, 3, 11, 13] ∧ exFive.hullIterFront = [13, 11, 3, 1, 9] := by decide
+
 /-- an empty iterator (`new_empty`, used when there is no hull / no out edge) answers `None` at once -/
 theorem C14_code_empty (step back : Nat → Nat) (e : Nat) :
     (CI.newEmpty e).next step = (CI.newEmpty e, none) ∧ (CI.newEmpty e).nextBack back = (CI.newEmpty e, none) := by
